@@ -371,7 +371,21 @@ func genBytes(s pbt.Src, thorough bool) Case {
 	if thorough {
 		maxOps = 150
 	}
-	return Case{Ops: genOps(s, chunk, 5, maxOps)}
+	ops := genOps(s, chunk, 5, maxOps)
+	if s.Intn(8) == 0 {
+		// long keys: every key gets one common stem whose length puts the keys around 64, 128 or 256 bytes (the sizes of
+		// machine words and small tables); the same long key is put again and again, as short ones are
+		stem := Key(strings.Repeat("k\x00", pbt.Pick(s, 30, 31, 32, 33, 62, 64, 126, 128)))
+		if len(ops) > 24 {
+			ops = ops[:24]
+		}
+		for i := range ops {
+			if ops[i].Key != "" {
+				ops[i].Key = stem + ops[i].Key
+			}
+		}
+	}
+	return Case{Ops: ops}
 }
 
 // ---------------------------------------------------------------------------
